@@ -55,9 +55,51 @@ def _permit_all() -> Dict[int, Dict]:
             22: {"action": "PERMIT", "protocol": "UDP"}}
 
 
-def acl_rules(shape: str, ip_a: str, ip_b: str) -> List[Dict]:
-    """Deny rule(s) that together match every IP frame from A to B. Keys as the *action* names them."""
-    net = lambda ip: ip.rsplit(".", 1)[0] + ".0"  # noqa: E731
+WILD_MASKS = ("0.0.0.255", "0.0.0.15", "0.0.0.3", "0.0.0.1", "0.0.255.255")
+WILD_BASES = ("net", "own", "other")
+
+
+def _ip2int(s: str) -> int:
+    a, b, c, d = (int(x) for x in s.split("."))
+    return (a << 24) | (b << 16) | (c << 8) | d
+
+
+def _int2ip(n: int) -> str:
+    return f"{(n >> 24) & 255}.{(n >> 16) & 255}.{(n >> 8) & 255}.{n & 255}"
+
+
+def wild_base(ip: str, mask: str, kind: str, off: int = 0) -> str:
+    """A base address for a wildcard rule that covers `ip` under `mask` (the mask applies to base and candidate alike).
+
+    net   = the normalised base (wildcard bits zero);
+    own   = the covered host's own address (un-normalised unless its wildcard bits happen to be zero);
+    other = another address inside the range (wildcard bits taken from `off`, never all zero, never the host's own).
+    """
+    n, m = _ip2int(ip), _ip2int(mask)
+    net = n & ~m & 0xFFFFFFFF
+    if kind == "net":
+        return _int2ip(net)
+    if kind == "own":
+        return ip
+    k = (off * 37 + 1) & m
+    if k == 0:
+        k = m
+    if (net | k) == n:
+        k = ((k + 1) & m) or m
+        if (net | k) == n:
+            k = m & ~(n & m) & 0xFFFFFFFF or m
+    return _int2ip(net | k)
+
+
+def acl_rules(shape: str, ip_a: str, ip_b: str, wc: Optional[Dict] = None) -> List[Dict]:
+    """Deny rule(s) that together match every IP frame from A to B. Keys as the *action* names them.
+
+    `wc` (wildcard shapes only): {"mask", "src_base", "dst_base", "off"}; absent = normalised /24 range.
+    """
+    wc = wc or {}
+    wmask = wc.get("mask", "0.0.0.255")
+    net_a = wild_base(ip_a, wmask, wc.get("src_base", "net"), int(wc.get("off", 0)))
+    net_b = wild_base(ip_b, wmask, wc.get("dst_base", "net"), int(wc.get("off", 0)) + 3)
     base = {"src_ip": "ALL", "src_wildcard": "NONE", "dst_ip": "ALL", "dst_wildcard": "NONE", "protocol_name": "ALL"}
 
     def r(**kw):
@@ -72,11 +114,11 @@ def acl_rules(shape: str, ip_a: str, ip_b: str) -> List[Dict]:
     if shape == "exact-both":
         return [r(src_ip=ip_a, dst_ip=ip_b)]
     if shape == "wild-src":
-        return [r(src_ip=net(ip_a), src_wildcard="0.0.0.255")]
+        return [r(src_ip=net_a, src_wildcard=wmask)]
     if shape == "wild-dst":
-        return [r(dst_ip=net(ip_b), dst_wildcard="0.0.0.255")]
+        return [r(dst_ip=net_b, dst_wildcard=wmask)]
     if shape == "wild-both":
-        return [r(src_ip=net(ip_a), src_wildcard="0.0.0.255", dst_ip=net(ip_b), dst_wildcard="0.0.0.255")]
+        return [r(src_ip=net_a, src_wildcard=wmask, dst_ip=net_b, dst_wildcard=wmask)]
     if shape == "any":
         return [r()]
     if shape == "proto3":
@@ -173,7 +215,8 @@ def block_target(spec: Dict) -> Dict:
     out: Dict[str, Any] = {"mech": m}
     if m == "acl":
         acl = P["acls"][b.get("which", 0) % len(P["acls"])]
-        out.update(acl=acl, rules=acl_rules(b["shape"], P["ip_a"], P["ip_b"]), pos=int(b.get("pos", 0)), shape=b["shape"])
+        out.update(acl=acl, rules=acl_rules(b["shape"], P["ip_a"], P["ip_b"], b.get("wc")), pos=int(b.get("pos", 0)),
+                   shape=b["shape"])
     elif m == "nic":
         out.update(node=A if b.get("side", "A") == "A" else B)
     elif m == "swport":
